@@ -393,7 +393,14 @@ class Interp:
             self.facts.members.append((p.value, p.cid, d))
             return d
         if isinstance(p, Unknown):
-            return self.decide("unknown test: %s" % p.why)
+            # one decision per unknown *value*: testing the same object twice (`if is_3d:` ... `if is_3d:`) is consistent
+            memo = self.__dict__.setdefault("unknown_truth", {})
+            ent = memo.get(id(p))
+            if ent is not None and ent[0] is p:
+                return ent[1]
+            d = self.decide("unknown test: %s" % p.why)
+            memo[id(p)] = (p, d)
+            return d
         return self.truth(p)
 
     def truth(self, v):
@@ -776,6 +783,19 @@ class Interp:
                 head[k] = (a, v)
                 env[k] = v.copy(val=alg.atom_expr(a))
             # arrays that are only stored into keep their value (stores are recorded)
+        # arrays that exist before the loop and are both stored into and read in the body carry their contents from one
+        # iteration to the next: the single generic iteration cannot know them
+        stored = _stored_names(s.body)
+        rebound = {x.id for st in s.body for n in ast.walk(st) if isinstance(n, (ast.Assign, ast.AnnAssign)) for t in (n.targets if isinstance(n, ast.Assign) else [n.target]) for x in [t] if isinstance(x, ast.Name)}
+        for k in sorted(stored - rebound):
+            v = env.get(k)
+            if not isinstance(v, Arr) or isinstance(v, SymArr):
+                continue
+            if _read_in_body(s.body, k) and not v.meta.get("table_by_loop") and level_axis_of(v) is None:
+                nv = v.copy(val=Unknown("contents of %s carried from earlier iterations of the loop at line %d" % (k, s.lineno)))
+                nv.meta = dict(v.meta)
+                nv.meta["carried"] = (k, s.lineno)
+                env[k] = nv
         L.head = head
         env[s.target.id] = i_expr
         self.loop_stack.append(L)
@@ -2020,6 +2040,33 @@ def _assigned_names(stmts):
                     if isinstance(x, ast.Name):
                         out.add(x.id)
     return out
+
+
+def level_axis_of(v):
+    import npsem
+
+    try:
+        return npsem.level_axis(v)
+    except Exception:
+        return None
+
+
+def _read_in_body(stmts, name):
+    """is `name` loaded in the body other than as the array being stored into?"""
+    for st in stmts:
+        store_bases = set()
+        for n in ast.walk(st):
+            if isinstance(n, (ast.Assign, ast.AugAssign)):
+                tg = n.targets if isinstance(n, ast.Assign) else [n.target]
+                for t in tg:
+                    if isinstance(t, ast.Subscript) and isinstance(t.value, ast.Name):
+                        store_bases.add(id(t.value))
+        for n in ast.walk(st):
+            if isinstance(n, ast.Name) and n.id == name and isinstance(n.ctx, ast.Load) and id(n) not in store_bases:
+                return True
+            if isinstance(n, ast.AugAssign) and isinstance(n.target, ast.Subscript) and isinstance(n.target.value, ast.Name) and n.target.value.id == name:
+                return True
+    return False
 
 
 def _stored_names(stmts):
